@@ -732,7 +732,7 @@ def p_discover(rng, v):
 
 
 def p_rekey_key_pair(rng, v):
-    return payloads.RekeyKeyPairResponsePayload(cattrs.PrivateKeyUniqueIdentifier(gen_uid(rng)), cattrs.PublicKeyUniqueIdentifier(gen_uid(rng)))
+    return payloads.RekeyKeyPairResponsePayload(gen_uid(rng), gen_uid(rng))
 
 
 # --- what the caller must get from a successful answer (the direct oracle's expectation, no model involved)
@@ -774,3 +774,396 @@ OPS_BY_NAME = {o.name: o for o in OPS}
 
 def call_pie(cl, op, kwargs):
     return getattr(cl, op.name)(**kwargs)
+
+
+# ---------------------------------------------------------------------- KMIPProxy level
+def proxy_observe(fn):
+    """Run a KMIPProxy call -> ('result', obj) | ('dict', d) | ('payload', p) | ('fail', st, rs, msg) | ('exc', name, text)."""
+    from kmip.services import results as kresults
+    try:
+        r = fn()
+    except cexc.OperationFailure as e:
+        return ('fail', e.status, e.reason, str(e))
+    except Exception as e:
+        return ('exc', type(e).__name__, str(e)[:160])
+    if isinstance(r, kresults.OperationResult):
+        return ('result', r)
+    if isinstance(r, dict):
+        return ('dict', r)
+    if isinstance(r, payloads.ResponsePayload):
+        return ('payload', r)
+    return ('exc', 'unexpected-return', repr(r)[:160])
+
+
+def _pv(x):
+    return x.value if x is not None and hasattr(x, 'value') else x
+
+
+def pout_coq(obs):
+    k = obs[0]
+    if k == 'result':
+        r = obs[1]
+        st, rs, m = _pv(r.result_status), _pv(r.result_reason), _pv(r.result_message)
+        return ('(PResult {| pr_class := %s; pr_status := %s; pr_reason := %s; pr_msg := %s; pr_fields := %s |})' % (
+            R_CLASS[type(r).__name__], cp.z(st.value), opt_coq(rs.value if rs is not None else None, cp.z),
+            opt_coq(m.encode('utf-8') if m is not None else None, cp.byts), attrs_coq(obj_attrs(r, R_ATTR))))
+    if k == 'dict':
+        d = obs[1]
+        st, rs, m = d.get('result_status'), d.get('result_reason'), d.get('result_message')
+        return '(PDict %s %s %s %s)' % (cp.z(st.value), opt_coq(rs.value if rs is not None else None, cp.z),
+                                       opt_coq(m.encode('utf-8') if m is not None else None, cp.byts),
+                                       attrs_coq(obj_attrs(d, D_ATTR)))
+    if k == 'payload':
+        return '(PPayload %s)' % attrs_coq(obj_attrs(obs[1], P_ATTR))
+    if k == 'fail':
+        return '(PFail %s %s %s)' % (cp.z(obs[1].value), cp.z(obs[2].value), cp.byts(obs[3].encode('utf-8')))
+    return 'PExc'
+
+
+def pout_plain(obs):
+    k = obs[0]
+    if k == 'result':
+        r = obs[1]
+        return {'kind': type(r).__name__, 'status': str(_pv(r.result_status)), 'reason': str(_pv(r.result_reason)),
+                'message': _pv(r.result_message)}
+    if k == 'dict':
+        return {'kind': 'dict', 'status': str(obs[1].get('result_status')), 'reason': str(obs[1].get('result_reason')),
+                'message': obs[1].get('result_message')}
+    if k == 'payload':
+        return {'kind': 'payload', 'class': type(obs[1]).__name__}
+    if k == 'fail':
+        return {'kind': 'OperationFailure', 'status': obs[1].name, 'reason': obs[2].name, 'message': obs[3]}
+    return {'kind': 'exception', 'class': obs[1], 'text': obs[2]}
+
+
+def pout_triple(obs):
+    """(status value, reason value | None, message | None) carried by what KMIPProxy handed back, or None."""
+    k = obs[0]
+    if k == 'result':
+        r = obs[1]
+        st, rs, m = _pv(r.result_status), _pv(r.result_reason), _pv(r.result_message)
+        return (st.value, rs.value if rs is not None else None, m)
+    if k == 'dict':
+        d = obs[1]
+        rs = d.get('result_reason')
+        return (d['result_status'].value, rs.value if rs is not None else None, d.get('result_message'))
+    if k == 'fail':
+        return (obs[1].value, obs[2].value, obs[3])
+    return None
+
+
+def _ta(*attrs):
+    return cobjects.TemplateAttribute(attributes=list(attrs))
+
+
+PROXY_CALLS = {
+    'create': lambda px, rng: px.create(enums.ObjectType.SYMMETRIC_KEY, _ta(kdrv.attr('CRYPTOGRAPHIC_ALGORITHM', CA.AES), kdrv.attr('CRYPTOGRAPHIC_LENGTH', 128))),
+    'create_key_pair': lambda px, rng: px.create_key_pair(common_template_attribute=cobjects.TemplateAttribute(
+        attributes=[kdrv.attr('CRYPTOGRAPHIC_ALGORITHM', CA.RSA), kdrv.attr('CRYPTOGRAPHIC_LENGTH', 2048)], tag=enums.Tags.COMMON_TEMPLATE_ATTRIBUTE)),
+    'register': lambda px, rng: px.register(enums.ObjectType.OPAQUE_DATA, _ta(), FACTORY.convert(pobjects.OpaqueObject(b'\x01\x02', enums.OpaqueDataType.NONE))),
+    'locate': lambda px, rng: px.locate(maximum_items=3),
+    'get': lambda px, rng: px.get(gen_uid(rng)),
+    'get_attributes': lambda px, rng: px.get_attributes(gen_uid(rng), ['Name']),
+    'get_attribute_list': lambda px, rng: px.get_attribute_list(gen_uid(rng)),
+    'activate': lambda px, rng: px.activate(gen_uid(rng)),
+    'revoke': lambda px, rng: px.revoke(enums.RevocationReasonCode.KEY_COMPROMISE, gen_uid(rng)),
+    'destroy': lambda px, rng: px.destroy(gen_uid(rng)),
+    'mac': lambda px, rng: px.mac(b'data', gen_uid(rng)),
+    'rekey': lambda px, rng: px.rekey(uuid=gen_uid(rng)),
+    'derive_key': lambda px, rng: px.derive_key(enums.ObjectType.SYMMETRIC_KEY, [gen_uid(rng)], enums.DerivationMethod.HASH,
+                                                cattrs.DerivationParameters(derivation_data=b'x'), _ta(kdrv.attr('CRYPTOGRAPHIC_LENGTH', 128))),
+    'check': lambda px, rng: px.check(gen_uid(rng), 2, [CUM.ENCRYPT], 10),
+    'encrypt': lambda px, rng: px.encrypt(b'data', gen_uid(rng)),
+    'decrypt': lambda px, rng: px.decrypt(b'data', gen_uid(rng)),
+    'signature_verify': lambda px, rng: px.signature_verify(b'm', b's', gen_uid(rng)),
+    'sign': lambda px, rng: px.sign(b'data', gen_uid(rng)),
+    'delete_attribute': lambda px, rng: px.send_request_payload(OP.DELETE_ATTRIBUTE, payloads.DeleteAttributeRequestPayload(
+        unique_identifier=gen_uid(rng), attribute_name='Name', attribute_index=0)),
+    'modify_attribute': lambda px, rng: px.send_request_payload(OP.MODIFY_ATTRIBUTE, payloads.ModifyAttributeRequestPayload(
+        unique_identifier=gen_uid(rng), attribute=gen_attribute(rng))),
+    'set_attribute': lambda px, rng: px.send_request_payload(OP.SET_ATTRIBUTE, payloads.SetAttributeRequestPayload(
+        unique_identifier=gen_uid(rng), new_attribute=cobjects.NewAttribute(attribute=primitives.Integer(128, enums.Tags.CRYPTOGRAPHIC_LENGTH)))),
+    'query': lambda px, rng: px.query(query_functions=[enums.QueryFunction.QUERY_OPERATIONS, enums.QueryFunction.QUERY_OBJECTS]),
+    'discover_versions': lambda px, rng: px.discover_versions(),
+    'rekey_key_pair': lambda px, rng: px.rekey_key_pair(private_key_uuid=cattrs.PrivateKeyUniqueIdentifier(gen_uid(rng))),
+}
+# modify_attribute / delete_attribute through send_request_payload need 1.x shaped payloads; 2.0 shaped ones below
+PROXY_CALLS_20 = {
+    'delete_attribute': lambda px, rng: px.send_request_payload(OP.DELETE_ATTRIBUTE, payloads.DeleteAttributeRequestPayload(
+        unique_identifier=gen_uid(rng), attribute_reference=cobjects.AttributeReference(vendor_identification='Acme', attribute_name='Name'))),
+    'modify_attribute': lambda px, rng: px.send_request_payload(OP.MODIFY_ATTRIBUTE, payloads.ModifyAttributeRequestPayload(
+        unique_identifier=gen_uid(rng), new_attribute=cobjects.NewAttribute(attribute=primitives.Integer(128, enums.Tags.CRYPTOGRAPHIC_LENGTH)))),
+}
+PROXY_ONLY = [
+    Op('query', 'OQuery', OP.QUERY, None, p_query, None),
+    Op('discover_versions', 'ODiscoverVersions', OP.DISCOVER_VERSIONS, None, p_discover, None, min_version=KV.KMIP_1_1),
+    Op('rekey_key_pair', 'ORekeyKeyPair', OP.REKEY_KEY_PAIR, None, p_rekey_key_pair, None, min_version=KV.KMIP_1_1),
+]
+
+
+# ---------------------------------------------------------------------- the real server stack
+_CERT = None
+
+
+def client_certificate(common_name='alice'):
+    """DER certificate with one CN and the clientAuth extended key usage (what KmipSession looks at)."""
+    global _CERT
+    if _CERT is None:
+        import datetime
+        from cryptography import x509
+        from cryptography.hazmat.primitives import hashes, serialization
+        from cryptography.hazmat.primitives.asymmetric import ec
+        from cryptography.x509.oid import NameOID, ExtendedKeyUsageOID
+        key = ec.generate_private_key(ec.SECP256R1())
+        name = x509.Name([x509.NameAttribute(NameOID.COMMON_NAME, common_name)])
+        cert = (x509.CertificateBuilder().subject_name(name).issuer_name(name).public_key(key.public_key())
+                .serial_number(1000).not_valid_before(datetime.datetime(2020, 1, 1)).not_valid_after(datetime.datetime(2040, 1, 1))
+                .add_extension(x509.ExtendedKeyUsage([ExtendedKeyUsageOID.CLIENT_AUTH]), critical=False)
+                .sign(key, hashes.SHA256()))
+        _CERT = cert.public_bytes(serialization.Encoding.DER)
+    return _CERT
+
+
+class _Conn:
+    def __init__(self, data):
+        self.data, self.out = data, []
+
+    def recv(self, n):
+        c, self.data = self.data[:n], self.data[n:]
+        return c
+
+    def sendall(self, b):
+        self.out.append(bytes(b))
+
+    def getpeercert(self, binary_form=False):
+        return client_certificate()
+
+    def cipher(self):
+        return ('ECDHE-RSA-AES256-GCM-SHA384', 'TLSv1.2', 256)
+
+    def shared_ciphers(self):
+        return None
+
+
+class ServerStack:
+    """Responder: a real KmipSession in front of a real KmipEngine; records what the server decoded and answered."""
+
+    def __init__(self, workdir, plan=('whole',)):
+        from kmip.services.server import session as session_mod
+        self.session_mod = session_mod
+        self.eng = kdrv.Engine(workdir=workdir)
+        self.plan = plan
+        self.decoded = []           # RequestMessage objects that reached KmipEngine.process_request
+        self.responses = []         # bytes the session sent
+        inner = self.eng.engine.process_request
+
+        def recording(request, credential=None):
+            self.decoded.append(request)
+            return inner(request, credential)
+        self.eng.engine.process_request = recording
+
+    def __call__(self, data):
+        conn = _Conn(data)
+        s = self.session_mod.KmipSession(self.eng.engine, conn, ('127.0.0.1', 5696), name='c19', enable_tls_client_auth=True)
+        s._logger.setLevel(logging.CRITICAL + 1)
+        from kmip.services.server import engine as engine_mod
+        engine_mod.time = self.eng.clock
+        s._handle_message_loop()
+        out = b''.join(conn.out)
+        self.responses.append(out)
+        return chunk(out, self.plan)
+
+    def close(self):
+        self.eng.close()
+
+
+# ---------------------------------------------------------------------- request check: decoded payload vs arguments
+def _val(x):
+    """Plain value of a primitive / enum-carrying object / plain value."""
+    if x is None:
+        return None
+    if isinstance(x, cattrs.Name):
+        return x.name_value.value
+    if isinstance(x, primitives.Base) and not isinstance(x, primitives.Struct) and hasattr(x, 'value'):
+        return _val(x.value)
+    if isinstance(x, (bytes, bytearray)):
+        return bytes(x)
+    return x
+
+
+def attr_pairs(template):
+    """[(attribute name, plain value)] of a TemplateAttribute (as the server decoded it), sorted."""
+    if template is None:
+        return []
+    out = []
+    for a in template.attributes:
+        out.append((a.attribute_name.value, repr(_val(a.attribute_value))))
+    return sorted(out)
+
+
+def mask_of(ms):
+    m = 0
+    for x in ms:
+        m |= x.value
+    return m
+
+
+def cp_pairs(cp_obj):
+    if cp_obj is None:
+        return None
+    names = ['block_cipher_mode', 'padding_method', 'hashing_algorithm', 'key_role_type', 'digital_signature_algorithm',
+             'cryptographic_algorithm', 'random_iv', 'iv_length', 'tag_length', 'fixed_field_length',
+             'invocation_field_length', 'counter_length', 'initial_counter_value']
+    return {n: getattr(cp_obj, n) for n in names if getattr(cp_obj, n) is not None}
+
+
+def cp_expected(d):
+    if d is None:
+        return None
+    return {k: v for k, v in d.items() if v is not None}
+
+
+def _uidv(x):
+    return _val(x)
+
+
+def request_expectations(op, kw, p, version):
+    """[(what, expected, decoded)] comparing the arguments given to the Pie method with the request payload the
+    SERVER decoded.  Written from the documented meaning of each argument, not from the client code."""
+    n = op.name
+    E = []
+    v2 = version >= KV.KMIP_2_0
+
+    def add(what, exp, got):
+        E.append((what, exp, got))
+    if n == 'create':
+        add('object_type', enums.ObjectType.SYMMETRIC_KEY, p.object_type)
+        exp = [('Cryptographic Algorithm', repr(kw['algorithm'])), ('Cryptographic Length', repr(kw['length'])),
+               ('Cryptographic Usage Mask', repr(mask_of([CUM.ENCRYPT, CUM.DECRYPT] + (kw['cryptographic_usage_mask'] or []))))]
+        if kw['operation_policy_name']:
+            exp.append(('Operation Policy Name', repr(kw['operation_policy_name'])))
+        if kw['name']:
+            exp.append(('Name', repr(kw['name'])))
+        add('attributes', sorted(exp), attr_pairs(p.template_attribute))
+    elif n == 'create_key_pair':
+        exp = [('Cryptographic Algorithm', repr(kw['algorithm'])), ('Cryptographic Length', repr(kw['length']))]
+        if kw['operation_policy_name']:
+            exp.append(('Operation Policy Name', repr(kw['operation_policy_name'])))
+        add('common attributes', sorted(exp), attr_pairs(p.common_template_attribute))
+        for side in ('public', 'private'):
+            exp = []
+            if kw[side + '_name']:
+                exp.append(('Name', repr(kw[side + '_name'])))
+            if kw[side + '_usage_mask']:
+                exp.append(('Cryptographic Usage Mask', repr(mask_of(kw[side + '_usage_mask']))))
+            add(side + ' attributes', sorted(exp), attr_pairs(getattr(p, side + '_key_template_attribute')))
+    elif n == 'register':
+        o = kw['managed_object']
+        add('object_type', o.object_type, p.object_type)
+        add('object', to_val(o), to_val(p.managed_object))
+        exp = [('Name', repr(nm)) for nm in o.names]
+        if getattr(o, 'cryptographic_usage_masks', None) is not None and hasattr(o, 'cryptographic_usage_masks'):
+            exp.append(('Cryptographic Usage Mask', repr(mask_of(o.cryptographic_usage_masks))))
+        if getattr(o, 'operation_policy_name', None) is not None:
+            exp.append(('Operation Policy Name', repr(o.operation_policy_name)))
+        add('attributes', sorted(exp), attr_pairs(p.template_attribute))
+    elif n == 'locate':
+        add('maximum_items', kw['maximum_items'], p.maximum_items)
+        add('offset_items', kw['offset_items'], p.offset_items)
+        add('storage_status_mask', kw['storage_status_mask'], p.storage_status_mask)
+        add('object_group_member', kw['object_group_member'], p.object_group_member)
+        add('attributes', sorted((a.attribute_name.value, repr(_val(a.attribute_value))) for a in (kw['attributes'] or [])),
+            sorted((a.attribute_name.value, repr(_val(a.attribute_value))) for a in (p.attributes or [])))
+    elif n == 'get':
+        add('unique_identifier', kw['uid'], p.unique_identifier)
+        spec = kw['key_wrapping_specification']
+        got = p.key_wrapping_specification
+        add('wrapping spec present', spec is not None, got is not None)
+        if spec is not None and got is not None:
+            add('wrapping_method', spec.get('wrapping_method'), got.wrapping_method)
+            add('encoding_option', spec.get('encoding_option'), got.encoding_option)
+            add('attribute_names', spec.get('attribute_names'), got.attribute_names)
+            eki = spec.get('encryption_key_information')
+            add('encryption key id', eki['unique_identifier'] if eki else None,
+                got.encryption_key_information.unique_identifier if got.encryption_key_information else None)
+            add('encryption key parameters', cp_expected(eki.get('cryptographic_parameters')) if eki else None,
+                cp_pairs(got.encryption_key_information.cryptographic_parameters) if got.encryption_key_information else None)
+    elif n == 'get_attributes':
+        add('unique_identifier', kw['uid'], p.unique_identifier)
+        add('attribute_names', sorted(kw['attribute_names'] or []), sorted(p.attribute_names or []))
+    elif n in ('get_attribute_list',):
+        add('unique_identifier', kw['uid'], p.unique_identifier)
+    elif n in ('activate', 'destroy'):
+        add('unique_identifier', kw['uid'], _uidv(p.unique_identifier))
+    elif n == 'revoke':
+        add('unique_identifier', kw['uid'], _uidv(p.unique_identifier))
+        add('revocation code', kw['revocation_reason'], _val(p.revocation_reason.revocation_code))
+        add('revocation message', kw['revocation_message'], _val(p.revocation_reason.revocation_message))
+        add('compromise date', kw['compromise_occurrence_date'], _val(p.compromise_occurrence_date))
+    elif n == 'mac':
+        add('unique_identifier', kw['uid'], _uidv(p.unique_identifier))
+        add('data', kw['data'], _val(p.data))
+        add('algorithm', kw['algorithm'], p.cryptographic_parameters.cryptographic_algorithm if p.cryptographic_parameters else None)
+    elif n == 'rekey':
+        add('unique_identifier', kw['uid'], p.unique_identifier)
+        add('offset', kw['offset'], p.offset)
+        names = {'activation_date': 'Activation Date', 'process_start_date': 'Process Start Date',
+                 'protect_stop_date': 'Protect Stop Date', 'deactivation_date': 'Deactivation Date'}
+        add('dates', sorted((names[k], repr(kw[k])) for k in names if kw.get(k)), attr_pairs(p.template_attribute))
+    elif n == 'derive_key':
+        add('object_type', kw['object_type'], p.object_type)
+        add('unique_identifiers', kw['unique_identifiers'], p.unique_identifiers)
+        add('derivation_method', kw['derivation_method'], p.derivation_method)
+        dp, g = kw['derivation_parameters'], p.derivation_parameters
+        add('derivation_data', dp.get('derivation_data'), g.derivation_data)
+        add('salt', dp.get('salt'), g.salt)
+        add('iteration_count', dp.get('iteration_count'), g.iteration_count)
+        add('initialization_vector', dp.get('initialization_vector'), g.initialization_vector)
+        add('derivation cryptographic parameters', cp_expected(dp.get('cryptographic_parameters')), cp_pairs(g.cryptographic_parameters))
+        exp = []
+        if kw.get('cryptographic_length'):
+            exp.append(('Cryptographic Length', repr(kw['cryptographic_length'])))
+        if kw.get('cryptographic_algorithm'):
+            exp.append(('Cryptographic Algorithm', repr(kw['cryptographic_algorithm'])))
+        add('attributes', sorted(exp), attr_pairs(p.template_attribute))
+    elif n == 'check':
+        add('unique_identifier', kw['uid'], p.unique_identifier)
+        add('usage_limits_count', kw['usage_limits_count'], p.usage_limits_count)
+        add('cryptographic_usage_mask', mask_of(kw['cryptographic_usage_mask']), p.cryptographic_usage_mask)
+        add('lease_time', kw['lease_time'], p.lease_time)
+    elif n in ('encrypt', 'decrypt'):
+        add('unique_identifier', kw['uid'], p.unique_identifier)
+        add('data', kw['data'], p.data)
+        add('iv_counter_nonce', kw['iv_counter_nonce'], p.iv_counter_nonce)
+        add('cryptographic_parameters', cp_expected(kw['cryptographic_parameters']), cp_pairs(p.cryptographic_parameters))
+    elif n == 'sign':
+        add('unique_identifier', kw['uid'], p.unique_identifier)
+        add('data', kw['data'], p.data)
+        add('cryptographic_parameters', cp_expected(kw['cryptographic_parameters']), cp_pairs(p.cryptographic_parameters))
+    elif n == 'signature_verify':
+        add('unique_identifier', kw['uid'], p.unique_identifier)
+        add('data', kw['message'], p.data)
+        add('signature_data', kw['signature'], p.signature_data)
+        add('cryptographic_parameters', cp_expected(kw['cryptographic_parameters']), cp_pairs(p.cryptographic_parameters))
+    elif n == 'delete_attribute':
+        add('unique_identifier', kw['unique_identifier'], p.unique_identifier)
+        if not v2:
+            add('attribute_name', kw['attribute_name'], p.attribute_name)
+            add('attribute_index', kw['attribute_index'], p.attribute_index)
+        else:
+            add('attribute_reference', to_val(kw.get('attribute_reference')), to_val(p.attribute_reference))
+            add('current_attribute', to_val(kw.get('current_attribute')), to_val(p.current_attribute))
+    elif n == 'set_attribute':
+        add('unique_identifier', kw['unique_identifier'], p.unique_identifier)
+        a = p.new_attribute.attribute if p.new_attribute is not None else None
+        add('attribute tag', enums.convert_attribute_name_to_tag(kw['attribute_name']), a.tag if a is not None else None)
+        add('attribute value', kw['attribute_value'], _val(a))
+    elif n == 'modify_attribute':
+        add('unique_identifier', kw['unique_identifier'], p.unique_identifier)
+        if not v2:
+            add('attribute', to_val(kw['attribute']), to_val(p.attribute))
+        else:
+            add('new_attribute', to_val(kw['new_attribute']), to_val(p.new_attribute))
+    else:
+        raise HarnessError('no request expectation for ' + n)
+    return E
